@@ -171,6 +171,75 @@ def _descent_as_loop(func) -> list:
     return out
 
 
+_wi_cache: dict = {}
+
+
+def _names_in(nodes) -> set:
+    out = set()
+    for n in nodes:
+        for m in ast.walk(n):
+            if isinstance(m, ast.Name):
+                out.add(m.id)
+    return out
+
+
+def _while_idioms(stmts: list) -> list:
+    """Two ways of writing a `for` loop with `while`:
+       * draining a list:        while L: x = L.pop() ; BODY          (BODY does not touch L, L is not looked at afterwards)
+                                 =  for x in reversed(L): BODY        (pop(0) / popleft(): for x in L)
+       * the iterator protocol:  it = iter(X) ... while True: try: x = next(it) except StopIteration: break|return E ; BODY
+                                 =  for x in X: BODY  [; return E]
+    One spelling (the for loop) is kept."""
+    key = tuple(id(x) for x in stmts)
+    if key in _wi_cache:
+        return _wi_cache[key][1]
+    out = []
+    changed = False
+    iters: dict[str, ast.expr] = {}  # name -> X for `name = iter(X)` seen so far in this block
+    for i, st in enumerate(stmts):
+        new = None
+        if isinstance(st, ast.Assign) and len(st.targets) == 1 and isinstance(st.targets[0], ast.Name) and isinstance(st.value, ast.Call) \
+                and isinstance(st.value.func, ast.Name) and st.value.func.id == "iter" and len(st.value.args) == 1 and not st.value.keywords:
+            iters[st.targets[0].id] = st.value.args[0]
+        if isinstance(st, ast.While) and not st.orelse and st.body:
+            first, rest = st.body[0], st.body[1:]
+            later = stmts[i + 1:]
+            # ---- drain
+            if isinstance(st.test, ast.Name) and isinstance(first, ast.Assign) and len(first.targets) == 1 and isinstance(first.value, ast.Call) \
+                    and isinstance(first.value.func, ast.Attribute) and isinstance(first.value.func.value, ast.Name) and first.value.func.value.id == st.test.id \
+                    and first.value.func.attr in ("pop", "popleft") and not first.value.keywords:
+                L = st.test.id
+                args = first.value.args
+                front = first.value.func.attr == "popleft" or (len(args) == 1 and isinstance(args[0], ast.Constant) and args[0].value == 0)
+                back = first.value.func.attr == "pop" and not args
+                if (front or back) and L not in _names_in(rest) and L not in _names_in(later):
+                    src = ast.Name(id=L, ctx=ast.Load())
+                    it_ = src if front else ast.Call(func=ast.Name(id="reversed", ctx=ast.Load()), args=[src], keywords=[])
+                    new = [ast.For(target=first.targets[0], iter=it_, body=rest or [ast.Pass()], orelse=[], type_comment=None)]
+            # ---- iterator protocol
+            if new is None and isinstance(st.test, ast.Constant) and st.test.value is True and isinstance(first, ast.Try) and len(first.body) == 1 \
+                    and len(first.handlers) == 1 and not first.orelse and not first.finalbody:
+                a, h = first.body[0], first.handlers[0]
+                if isinstance(a, ast.Assign) and len(a.targets) == 1 and isinstance(a.value, ast.Call) and isinstance(a.value.func, ast.Name) \
+                        and a.value.func.id == "next" and len(a.value.args) == 1 and isinstance(a.value.args[0], ast.Name) and a.value.args[0].id in iters \
+                        and isinstance(h.type, ast.Name) and h.type.id == "StopIteration" and len(h.body) == 1 and isinstance(h.body[0], (ast.Break, ast.Return)):
+                    itn = a.value.args[0].id
+                    if itn not in _names_in(rest) and itn not in _names_in(later):
+                        loop = ast.For(target=a.targets[0], iter=iters[itn], body=rest or [ast.Pass()], orelse=[], type_comment=None)
+                        new = [loop] + ([h.body[0]] if isinstance(h.body[0], ast.Return) else [])
+        if new is not None:
+            for n_ in new:
+                ast.copy_location(n_, st)
+                ast.fix_missing_locations(n_)
+            out.extend(new)
+            changed = True
+        else:
+            out.append(st)
+    res = out if changed else stmts
+    _wi_cache[key] = (stmts, res)
+    return res
+
+
 _rab_cache: dict = {}
 
 
@@ -498,7 +567,7 @@ class Evaluator:
         """Returns list of (state, status, value, line); status in fall/return/raise/break/continue."""
         live = [state]
         done = []
-        stmts = _returns_as_breaks(stmts)
+        stmts = _returns_as_breaks(_while_idioms(stmts))
         for st in stmts:
             nxt = []
             for s in live:
@@ -1146,7 +1215,17 @@ class Evaluator:
             state.env[tgt.id] = v
             return v
         if isinstance(tgt, (ast.Tuple, ast.List)):
-            return ("tuplelit", tuple(self._bind_target(e, state) for e in tgt.elts))
+            subs: list = [None] * len(tgt.elts)
+            src = it
+            while src is not None and src[0] == "call" and src[1] in ("list", "tuple", "iter") and len(src[2]) == 1 and not src[3]:
+                src = src[2][0]
+            if src is not None and src[0] == "call" and isinstance(src[1], str) and len(tgt.elts) == 2:
+                tail = src[1].split(".")[-1]
+                if tail == "enumerate" and len(src[2]) == 1:
+                    subs[1] = src[2][0]  # the second component of enumerate(X) is an element of X
+                elif tail == "zip" and len(src[2]) == 2:
+                    subs = [src[2][0], src[2][1]]
+            return ("tuplelit", tuple(self._bind_target(e, state, subs[k]) for k, e in enumerate(tgt.elts)))
         if isinstance(tgt, ast.Starred):
             return self._bind_target(tgt.value, state)
         v = self.fresh("t_")
@@ -1802,14 +1881,20 @@ class Evaluator:
         if key in self._table_cache:
             return self._table_cache[key]
         self._table_cache[key] = None
-        if not isinstance(v, (ast.Dict, ast.Tuple, ast.List, ast.Set)):
+        is_partial = isinstance(v, ast.Call) and ((isinstance(v.func, ast.Name) and v.func.id == "partial") or (isinstance(v.func, ast.Attribute) and v.func.attr == "partial"))
+        if not isinstance(v, (ast.Dict, ast.Tuple, ast.List, ast.Set)) and not is_partial:
             return None
 
         def closed(e: ast.expr) -> bool:
             if isinstance(e, ast.Constant):
                 return True
+            if isinstance(e, ast.Call) and e is v and is_partial:
+                # NAME = partial(f, fixed arguments): a function value
+                return all(closed(x) for x in e.args) and all(k.arg is not None and closed(k.value) for k in e.keywords)
             if isinstance(e, ast.Name):
                 r = self.model.resolve_name(m, e.id)
+                if r is None and (e.id in BUILTINS or e.id in dir(__builtins__)):
+                    return True
                 return isinstance(r, (Func, Cls)) or (isinstance(r, tuple) and r[0] == "const" and isinstance(r[2], ast.Constant))
             if isinstance(e, (ast.Tuple, ast.List, ast.Set)):
                 return all(closed(x) for x in e.elts)
@@ -2926,8 +3011,24 @@ class Evaluator:
             if not args:
                 return [(state, ("listlit" if name != "tuple" else "tuplelit", ()))]
             a = args[0]
+            if name in ("list", "tuple", "sorted") and (a == EMPTY or (a[0] in ("listlit", "tuplelit", "setlit") and not a[1]) or (a[0] == "setof" and len(a) == 2 and (
+                    a[1] == EMPTY or (a[1][0] in ("listlit", "tuplelit", "setlit") and not a[1][1])))):
+                return [(state, ("tuplelit" if name == "tuple" else "listlit", ()))]  # nothing to list / sort
             if name in ("list", "tuple") and a[0] in ("listlit", "tuplelit"):
                 return [(state, ("listlit" if name == "list" else "tuplelit", a[1]))]
+            if name == "sorted" and a[0] in ("listlit", "tuplelit") and len(a[1]) == 2 and all(x[0] != "star" for x in a[1]) and set(kwargs) == {"key"}:
+                # sorted([x, y], key=k): y comes first exactly when k(y) < k(x) (the sort is stable)
+                x0, x1 = a[1]
+                k = kwargs.get("key")
+                if k is None or k == NONE:
+                    k0, k1 = x0, x1
+                else:
+                    r0, r1 = self.apply(k, [x0], {}, state, func, line), self.apply(k, [x1], {}, state, func, line)
+                    k0 = r0[0][1] if len(r0) == 1 else None
+                    k1 = r1[0][1] if len(r1) == 1 else None
+                if k0 is not None and k1 is not None and k0[0] != "apply" and k1[0] != "apply":
+                    c = ("lt", k1, k0)
+                    return [(state, ("listlit", (("ite", c, x1, x0), ("ite", c, x0, x1))))]
             return [(state, ("call", name, tuple(args), tuple(sorted(kwargs.items()))))]
         if name == "isinstance" and len(args) == 2:
             return [(state, self.isinstance_term(args[0], args[1]))]
@@ -3238,6 +3339,13 @@ class Evaluator:
         if name == "extend" and len(args) == 1:
             return self._concat(cur, args[0])
         if name == "sort" and not args:
+            k = kwargs.get("key")
+            if cur[0] in ("listlit", "tuplelit") and len(cur[1]) == 2 and all(x[0] != "star" for x in cur[1]) and set(kwargs) == {"key"} \
+                    and (k is not None and k != NONE and k[0] == "builtin"):
+                x0, x1 = cur[1]
+                k0, k1 = (x0, x1) if (k is None or k == NONE) else (("call", k[1], (x0,), ()), ("call", k[1], (x1,), ()))
+                c = ("lt", k1, k0)
+                return ("listlit", (("ite", c, x1, x0), ("ite", c, x0, x1)))
             return ("call", "sorted", (cur,), tuple(sorted(kwargs.items())))
         if name == "intersection_update" and len(args) == 1:
             return ("inter", cur, args[0])
